@@ -223,6 +223,11 @@ def build():
     plan.lemma(Lemma("OLD-WRITER-DRIFTS", "vacuity guard: storing the height as read (the pinned behaviour) does NOT read back when a border adds a point",
                      [("drifts", [b >= 1, flo(fb, b), flo(h, z3.ToReal(R) + b), s2 == h, R2 == s2], z3.Not(flo(h, z3.ToReal(R2) + b)))]))
 
+    # a table the library creates has its OWN header storage: every object created for it is made the target of a reference (C07's complete
+    # syntactic obligation over model.py, re-checked here: a table that still points at the storage it was cloned from shares its sizes)
+    from contracts import C07
+    plan.ground.append(("created-objects-are-referenced", C07.build().created_objects_referenced))
+
     plan.bounded.append(BoundedStandIn(
         "geometry-cycles", "c16_geometry.py", [], thorough_args=["--level", "2"], timeout=1500,
         bound="the 40 smallest fixtures (thorough: every fixture) x {geometry queried, nothing queried before saving} x 2 (thorough 3) save/reopen "
